@@ -40,6 +40,23 @@ type Task struct {
 	// set while the task is parked in the scheduler
 	parked bool
 	memHit bool
+	// crit > 0: the task holds a lock or runs inside sync.Once.Do; it is not parked
+	crit int
+}
+
+// CritEnter is inserted before every Lock / RLock statement and around Once.Do.
+func CritEnter() {
+	if t := cur; t != nil {
+		t.crit++
+	}
+}
+
+// CritExit is inserted after every Unlock / RUnlock statement (for a deferred
+// Unlock: deferred just before it, so that it runs just after it).
+func CritExit() {
+	if t := cur; t != nil && t.crit > 0 {
+		t.crit--
+	}
 }
 
 var (
